@@ -6,53 +6,58 @@
 (* ready when the quit channel closes may still be served: that race is    *)
 (* modelled (TickFire / SessionEnd are independent of the select).         *)
 (* C18: a ping per tick; a failed ping closes the connection exactly once  *)
-(* and ends the goroutine; once the session has ended no further keepalive *)
-(* is sent (at most the one whose tick was already due).                   *)
+(* and ends the goroutine - unless the session has ended meanwhile: then   *)
+(* the loss is known and the transport may already carry the next session, *)
+(* so the goroutine just ends; once the session has ended no further       *)
+(* keepalive is sent (at most the one whose tick was already due).         *)
 (***************************************************************************)
 EXTENDS Integers, Sequences, TLC, Json
 CONSTANTS MaxTicks, FailAts, QuitPhases, Emit
-VARIABLES pc, tickReady, fired, consumed, pings, closes, quitClosed, pingsAfterQuit, dueAtQuit, failAt, quitPlan, hist
-vars == <<pc, tickReady, fired, consumed, pings, closes, quitClosed, pingsAfterQuit, dueAtQuit, failAt, quitPlan, hist>>
+VARIABLES pc, tickReady, fired, consumed, pings, closes, quitClosed, pingsAfterQuit, dueAtQuit, failAt, quitPlan, skipClose, hist
+vars == <<pc, tickReady, fired, consumed, pings, closes, quitClosed, pingsAfterQuit, dueAtQuit, failAt, quitPlan, skipClose, hist>>
 
 \* quitPlan = [after |-> n, phase |-> "idle" | "attick" | "never"]: the session ends after the n-th ping
 Init == /\ pc = "wait" /\ tickReady = FALSE /\ fired = 0 /\ consumed = 0 /\ pings = 0 /\ closes = 0 /\ quitClosed = FALSE
         /\ pingsAfterQuit = 0 /\ dueAtQuit = FALSE /\ failAt \in FailAts
         /\ quitPlan \in {[after |-> n, phase |-> p] : n \in 0..MaxTicks, p \in QuitPhases}
-        /\ hist = <<>>
+        /\ skipClose = FALSE /\ hist = <<>>
 
 TickFire == /\ fired < MaxTicks /\ ~tickReady /\ pc # "done"
             /\ tickReady' = TRUE /\ fired' = fired + 1
-            /\ UNCHANGED <<pc, consumed, pings, closes, quitClosed, pingsAfterQuit, dueAtQuit, failAt, quitPlan, hist>>
+            /\ UNCHANGED <<pc, consumed, pings, closes, quitClosed, pingsAfterQuit, dueAtQuit, failAt, quitPlan, skipClose, hist>>
 SelectTick == /\ pc = "wait" /\ tickReady
               /\ pc' = "pinging" /\ tickReady' = FALSE /\ consumed' = consumed + 1
-              /\ UNCHANGED <<fired, pings, closes, quitClosed, pingsAfterQuit, dueAtQuit, failAt, quitPlan, hist>>
+              /\ UNCHANGED <<fired, pings, closes, quitClosed, pingsAfterQuit, dueAtQuit, failAt, quitPlan, skipClose, hist>>
 SelectQuit == /\ pc = "wait" /\ quitClosed
               /\ pc' = "done"
-              /\ UNCHANGED <<tickReady, fired, consumed, pings, closes, quitClosed, pingsAfterQuit, dueAtQuit, failAt, quitPlan, hist>>
+              /\ UNCHANGED <<tickReady, fired, consumed, pings, closes, quitClosed, pingsAfterQuit, dueAtQuit, failAt, quitPlan, skipClose, hist>>
 Ping == /\ pc = "pinging"
         /\ pings' = pings + 1
         /\ pingsAfterQuit' = IF quitClosed THEN pingsAfterQuit + 1 ELSE pingsAfterQuit
-        /\ pc' = IF failAt > 0 /\ pings + 1 >= failAt THEN "closing" ELSE "wait"
+        \* after a failed ping the quit channel is looked at once more before the transport is closed
+        /\ pc' = IF failAt > 0 /\ pings + 1 >= failAt THEN (IF quitClosed THEN "done" ELSE "closing") ELSE "wait"
+        /\ skipClose' = (skipClose \/ (failAt > 0 /\ pings + 1 >= failAt /\ quitClosed))
         /\ hist' = Append(hist, IF failAt > 0 /\ pings + 1 >= failAt THEN "pingfail" ELSE "ping")
         /\ UNCHANGED <<tickReady, fired, consumed, closes, quitClosed, dueAtQuit, failAt, quitPlan>>
 CloseOnFailure == /\ pc = "closing" /\ closes' = closes + 1 /\ pc' = "done" /\ hist' = Append(hist, "close")
-                  /\ UNCHANGED <<tickReady, fired, consumed, pings, quitClosed, pingsAfterQuit, dueAtQuit, failAt, quitPlan>>
+                  /\ UNCHANGED <<tickReady, fired, consumed, pings, quitClosed, pingsAfterQuit, dueAtQuit, failAt, quitPlan, skipClose>>
 \* the session ends (the receive loop returns and closes the quit channel) at the planned point
 SessionEnd == /\ ~quitClosed /\ quitPlan.phase # "never" /\ pings = quitPlan.after
               /\ (quitPlan.phase = "idle" => pc = "wait") /\ (quitPlan.phase = "attick" => pc = "pinging")
               /\ quitClosed' = TRUE /\ dueAtQuit' = (tickReady \/ pc = "pinging")
               /\ hist' = Append(hist, "quit")
-              /\ UNCHANGED <<pc, tickReady, fired, consumed, pings, closes, pingsAfterQuit, failAt, quitPlan>>
+              /\ UNCHANGED <<pc, tickReady, fired, consumed, pings, closes, pingsAfterQuit, failAt, quitPlan, skipClose>>
 Next == TickFire \/ SelectTick \/ SelectQuit \/ Ping \/ CloseOnFailure \/ SessionEnd
 Spec == Init /\ [][Next]_vars /\ WF_vars(SelectTick \/ SelectQuit \/ Ping \/ CloseOnFailure)
 
 C18_PingPerTick == pings <= consumed /\ consumed <= pings + 1 /\ consumed <= fired
-C18_FailureClosesOnce == closes <= 1 /\ (closes = 1 => failAt > 0 /\ pings >= failAt) /\ (pc = "done" /\ failAt > 0 /\ pings >= failAt => closes = 1)
+C18_FailureClosesOnce == closes <= 1 /\ (closes = 1 => failAt > 0 /\ pings >= failAt /\ ~skipClose)
+                         /\ (pc = "done" /\ failAt > 0 /\ pings >= failAt /\ ~skipClose => closes = 1)
 C18_NoPingAfterFailure == (failAt > 0) => pings <= failAt
 \* after the session ended only a tick that was already due may still be served; with ticks far apart that is at most one
 C18_NoPingAfterEnd == pingsAfterQuit <= fired /\ (pingsAfterQuit > 0 => (dueAtQuit \/ fired > consumed - pingsAfterQuit))
 C18_StopsWithSession == quitClosed ~> (pc = "done")
 Terminal == pc = "done" \/ (fired = MaxTicks /\ pc = "wait" /\ ~tickReady /\ ~quitClosed /\ quitPlan.phase = "never")
 EmitInv == IF Emit /\ Terminal THEN PrintT(<<"B", ToJson([failat |-> failAt, quit |-> quitPlan, ticks |-> fired])>>) ELSE TRUE
-View == <<pc, tickReady, fired, consumed, pings, closes, quitClosed, failAt, quitPlan>>
+View == <<pc, tickReady, fired, consumed, pings, closes, quitClosed, failAt, quitPlan, skipClose>>
 =============================================================================
